@@ -202,6 +202,36 @@ def build(source, pos, ctx, h, trap, second=None):
     return lines, direct
 
 
+HIGH_SHIFT = 40000
+
+
+def shift_stmt(st, off):
+    k = st[0]
+    if k in ('goto', 'gosub'):
+        return (k, st[1] + off)
+    if k == 'if':
+        return ('if', st[1], None if st[2] is None else st[2] + off)
+    if k == 'else':
+        return ('else', None if st[1] is None else st[1] + off)
+    if k == 'on':
+        return ('on', st[1], st[2], [n + off for n in st[3]])
+    if k == 'onerror':
+        return ('onerror', st[1] + off if st[1] else st[1])
+    if k == 'resume':
+        return ('resume', st[1] + off if isinstance(st[1], int) and st[1] else st[1])
+    if k == 'restore':
+        return ('restore', None if st[1] is None else st[1] + off)
+    return st
+
+
+def shift_lines(lines, direct, off):
+    """The same program with every line number and every reference moved up by `off`."""
+    lines = [(n + off, [shift_stmt(st, off) for st in sts]) for n, sts in lines]
+    if direct is not None:
+        direct = [shift_stmt(st, off) for st in direct]
+    return lines, direct
+
+
 def valid(source, pos, ctx, h, trap):
     if ctx == 'forline' and pos in ('then', 'else'):
         return False        # the NEXT would become part of the IF branch
@@ -224,6 +254,12 @@ def cases_main():
                         if valid(source, pos, ctx, h, trap):
                             out.append((source, pos, ctx, h, trap, None))
     return out
+
+
+def cases_high(quick):
+    """The main product in one position, every line number moved beyond 32767."""
+    return [c + (HIGH_SHIFT,) for c in cases_main()
+            if c[1] == 'middle' and (not quick or c[2] in ('main', 'gosub1', 'for', 'direct'))]
 
 
 def cases_pairs(quick):
@@ -256,8 +292,11 @@ class _O(object):
 
 
 def run_case(part, runner, case, leg):
-    source, pos, ctx, h, trap, second = case
+    source, pos, ctx, h, trap, second = case[:6]
     lines, direct = build(source, pos, ctx, h, trap, second)
+    if len(case) > 6:
+        # line numbers beyond 32767 (ERL is not a 16-bit signed quantity)
+        lines, direct = shift_lines(lines, direct, case[6])
     c = {'case': list(case), 'program': [t.decode('latin-1') for t in MB.program_text(lines)],
          'direct': MB.line_text(direct) if direct else None}
 
@@ -270,7 +309,7 @@ def run_case(part, runner, case, leg):
         wrap=_O)
     part.n += 1
     k = kind(outcomes[0])
-    part.classes.add('%s/%s/%s/%s' % (source, ctx, h if trap == 'armed' else trap, k))
+    part.classes.add('%s/%s/%s/%s%s' % (source, ctx, h if trap == 'armed' else trap, k, '/high-lines' if len(case) > 6 else ''))
     part.outcome(k)
     return c
 
@@ -520,6 +559,9 @@ def _legs_model(ctx):
                       len(main), len(SOURCE_ORDER), len(POSITIONS), len(CONTEXTS), len(HANDLERS))),
         Leg('pairs', list(chunked(pairs, 60)), work_cases, exhaustive=True,
             bound='%d programs: all ordered pairs of 11 sources in consecutive lines x contexts x handlers' % len(pairs)),
+        Leg('high-lines', list(chunked(cases_high(ctx.quick), 60)), work_cases, exhaustive=True,
+            bound='%d programs: the product at one position with every line number and reference moved up by %d '
+                  '(all lines beyond 32767)' % (len(cases_high(ctx.quick)), HIGH_SHIFT)),
         Leg('after-stop', list(chunked(afterstop_cases(), 20)), work_afterstop, exhaustive=True,
             bound='%d programs stopped by an error inside their handler x %d direct-mode continuations without RUN (GOTO back in, '
                   'RESUME, ERROR, GOSUB): the trap must catch again, RESUME has nothing to resume' % (
@@ -535,7 +577,7 @@ def replay(ctx, leg, case):
     runner = Runner()
     if leg == 'stop-cont':
         return work_stopcont([tuple(case['case'])])
-    if leg in ('product', 'pairs'):
+    if leg in ('product', 'pairs', 'high-lines'):
         run_case(part, runner, tuple(case['case']), leg)
     else:
         return work_codes([case['code']])
